@@ -157,8 +157,11 @@ def run_batch(engine, tier, hs, stats, known, max_examples, deadline, shrink_s=6
         hit = [v for v in fresh if sig_key(v['signature']) == failure['target']]
         if not hit:
             return
-        failure['plan'] = plan
-        failure['violation'] = hit[0]
+        v = dict(hit[0])
+        # an engine may name the concrete plan (e.g. with the derived schedule
+        # made explicit) that reproduces the violation on its own
+        failure['plan'] = v.pop('replan', None) or plan
+        failure['violation'] = v
         raise Violation(failure['target'])
 
     try:
@@ -231,10 +234,10 @@ def write_replay(engine, seed_, failure):
     return path
 
 
-def confirm_fresh(path):
-    """Replay in a fresh interpreter under another PYTHONHASHSEED."""
+def confirm_fresh(path, hashseed='4242'):
+    """Replay in a fresh interpreter (by default under another PYTHONHASHSEED)."""
     env = dict(os.environ)
-    env['PYTHONHASHSEED'] = '4242'
+    env['PYTHONHASHSEED'] = hashseed
     try:
         p = subprocess.run(
             [sys.executable, os.path.join(VERIF, 'run_check.py'), '--replay', path],
@@ -330,11 +333,20 @@ def run_check(engine_name, tier, seed_, nworkers=None):
         seen_sigs.add(k)
         path = write_replay(engine, seed_, fl)
         ok = confirm_fresh(path)
+        same = ok or confirm_fresh(path, '0')
         with open(path) as f:
             body = json.load(f)
         body['confirmed_fresh'] = ok
+        body['confirmed_fresh_same_hashseed'] = bool(same)
         with open(path, 'w') as f:
             json.dump(body, f, indent=1, default=str)
+        if not same:
+            # found once, not reproducible from its replay file: the machinery is
+            # at fault (a source of nondeterminism it does not own) - no verdict
+            errors.append('violation {} did not reproduce from its replay file {} in a fresh '
+                          'interpreter (no verdict)'.format(
+                              json.dumps(fl['violation'].get('signature')), path))
+            continue
         replay_paths.append((path, ok, fl))
 
     evidence = engine.evidence(stats, tier)
@@ -372,7 +384,7 @@ def run_check(engine_name, tier, seed_, nworkers=None):
         print(ln)
     for path, ok, fl in replay_paths:
         print('VIOLATION property={} replay={}'.format(engine.prop, path))
-        print('  confirmed in fresh interpreter: {}'.format(ok))
+        print('  confirmed in a fresh interpreter under another PYTHONHASHSEED: {}'.format(ok))
         print('  ' + json.dumps(fl['violation'], default=str)[:1500])
     if replay_paths:
         return 1
